@@ -1,0 +1,9 @@
+//go:build verif
+
+package tor
+
+import "math/rand/v2"
+
+func verifRand() *rand.Rand {
+	return rand.New(rand.NewPCG(rand.Uint64(), rand.Uint64()))
+}
